@@ -29,10 +29,12 @@ theorem sum_incidence_mul (ls : List L) (hnd : ls.Nodup) (b : Branch L K) (h1 : 
   rw [sum_single hnd, sum_single hnd]
   simp [h1, h2]; ring
 
-/-- **C05 (Tellegen).**  In every solved circuit the complex powers of all elements sum to
+/-- Tellegen's theorem needs only Kirchhoff's two laws (no element law): in every report that
+satisfies the voltage law and the current law the complex powers of all elements sum to
 zero: ideal sources and passive elements in the passive sign convention, linear (lossy)
 sources counted as delivered power (their reported current is in generator direction). -/
-theorem C05_tellegen (conj : K →+* K) (N : Net L K) (R : Report L K) (h : CircuitEqs N R) :
+theorem tellegen_of_kvl_kcl (conj : K →+* K) (N : Net L K) (R : Report L K)
+    (hvolt : ∀ b ∈ N.branches, voltResidual R b = 0) (hkcl : ∀ n, kclResidual N R n = 0) :
     (N.branches.map fun b => R.v b.id * conj (b.e.physCurrent (R.i b.id))).sum = 0 := by
   set ls := dedupL N.allLabels with hls
   have hnd : ls.Nodup := nodup_dedupL _
@@ -41,7 +43,7 @@ theorem C05_tellegen (conj : K →+* K) (N : Net L K) (R : Report L K) (h : Circ
     rw [sum_incidence_mul ls hnd b
       (mem_dedupL.mpr (mem_allLabels_of_incident N hb (Or.inl rfl)))
       (mem_dedupL.mpr (mem_allLabels_of_incident N hb (Or.inr rfl)))]
-    have := h.volt b hb
+    have := hvolt b hb
     unfold voltResidual at this
     linear_combination this
   have step : (N.branches.map fun b => R.v b.id * conj (b.e.physCurrent (R.i b.id))).sum
@@ -57,7 +59,7 @@ theorem C05_tellegen (conj : K →+* K) (N : Net L K) (R : Report L K) (h : Circ
   intro y hy
   obtain ⟨n, _, rfl⟩ := List.mem_map.mp hy
   rw [List.sum_map_mul_left]
-  have hk := h.kcl_all n
+  have hk := hkcl n
   unfold kclResidual at hk
   have : (N.branches.map fun b => incidence b n * conj (b.e.physCurrent (R.i b.id))).sum
       = conj ((N.branches.map fun b => incidence b n * b.e.physCurrent (R.i b.id)).sum) := by
@@ -69,6 +71,23 @@ theorem C05_tellegen (conj : K →+* K) (N : Net L K) (R : Report L K) (h : Circ
     unfold incidence
     by_cases h1 : b.n1 = n <;> by_cases h2 : b.n2 = n <;> simp [h1, h2]
   rw [this, hk, map_zero, mul_zero]
+
+/-- **C05 (Tellegen).**  In every solved circuit the complex powers of all elements sum to
+zero: ideal sources and passive elements in the passive sign convention, linear (lossy)
+sources counted as delivered power (their reported current is in generator direction). -/
+theorem C05_tellegen (conj : K →+* K) (N : Net L K) (R : Report L K) (h : CircuitEqs N R) :
+    (N.branches.map fun b => R.v b.id * conj (b.e.physCurrent (R.i b.id))).sum = 0 :=
+  tellegen_of_kvl_kcl conj N R h.volt h.kcl_all
+
+/-- **C05 (instantaneous and per-sample power balance).**  Time-domain and transient results
+report `p(t) = v(t)·i(t)`; whenever the instantaneous values satisfy Kirchhoff's voltage and
+current laws at an instant / sample (C09 `C09_kcl_instant`, C12 `C12_kcl_sample`), the
+instantaneous powers sum to zero at that instant — Tellegen with the identity in place of
+conjugation, over any field (ℝ for waveforms). -/
+theorem C05_instant (N : Net L K) (R : Report L K)
+    (hvolt : ∀ b ∈ N.branches, voltResidual R b = 0) (hkcl : ∀ n, kclResidual N R n = 0) :
+    (N.branches.map fun b => R.v b.id * b.e.physCurrent (R.i b.id)).sum = 0 := by
+  simpa using tellegen_of_kvl_kcl (RingHom.id K) N R hvolt hkcl
 
 /-- reported power of a branch: `V · conj(I)` of the reported values; for a linear source
 this is the *delivered* power, i.e. minus the power in the passive convention -/
